@@ -363,6 +363,7 @@ def run(ctx):
         cls = mdl.cls('path.' + cname)
         if 'length' in cls.methods:
             _length_history(ctx, mdl, cname)
+        _sequence_protocol_history(ctx, mdl, cname)
         for obs in ('bpoints', 'poly', 'point', 'derivative', 'bbox', '__hash__'):      # length(): R16.3 and the concrete history above
             if obs in cls.methods:
                 r = _history_equals_fresh(ctx, mdl, cname, cls.methods[obs], 'R16.11')
@@ -1294,6 +1295,52 @@ def _length_history(ctx, mdl, cname):
         ctx.record('R16.11', fi.qualname, label, not bad, detail='; '.join(bad[:3]), where=where(fi))
 
 
+def _sequence_protocol_history(ctx, mdl, cname):
+    """a segment used as a sequence of control points (seg[i], len(seg), iteration - the way the generic Bezier helpers read it):
+    after the segment has been queried in every way that may fill a cache and one control point was reassigned, the sequence is
+    that of a freshly built segment.  Concrete control points, hash() adversarial."""
+    cls = mdl.cls('path.' + cname)
+    if '__getitem__' not in cls.methods:
+        return
+    fi = cls.methods['__getitem__']
+    fields = cls.method('__init__').params()[1:]
+    n = len(fields)
+    P = [Rat.const(z) for z in (0, 1 + 2j, 3 - 1j, 5 + 1j)][:n - 1] + [Rat.const(7 + 3j)]
+    NEW = Rat.const(-2 + 9j)
+    warm = [m for m in ('length', 'bpoints', 'poly', 'bbox', '__len__') if m in cls.methods]
+    bad = []
+    und = None
+    for k, field in enumerate(fields):
+        def th(it, k=k, field=field):
+            seg = it.construct('path.' + cname, *P)
+            for m in warm:
+                it.call_method(seg, m)
+            [it.call_method(seg, '__getitem__', i) for i in range(n)]
+            it.setattr(seg, field, NEW)
+            fresh = it.construct('path.' + cname, *[NEW if j == k else P[j] for j in range(n)])
+            view = lambda o: ([it.call_method(o, '__getitem__', i) for i in range(n)],
+                              it.call_method(o, '__len__') if '__len__' in cls.methods else None, list(it.iterate(o)))
+            return view(seg), view(fresh)
+        seglen = lambda it, a_, k_: Rat.sym('SEGLEN') + to_rat(it.call_method(a_[0], 'point', Rat.const(Fr(1, 3)))).real()
+        try:
+            from .c08 import mm_hooks
+            xh = mm_hooks()
+            xh['builtins.hash'] = lambda it, a_, k_: 7
+            paths = explore(mdl, th, {'globals': {('*', '_quad_available'): False}, 'call_hooks': {'path.segment_length': seglen}, 'ext_hooks': xh})
+        except Undecidable as e:
+            und = str(e)
+            continue
+        for pth in paths:
+            if pth.raised is None and not _struct_equal(*pth.value):
+                bad.append('after `seg.%s = z` the segment read as a sequence (seg[i], len, iteration) still shows the old control points' % field)
+                break
+    label = 'queried, a control point reassigned: seg[i] / len / iteration == fresh segment'
+    if und and not bad:
+        ctx.undecided('R16.11', fi.qualname, label, und, where=where(fi))
+    else:
+        ctx.record('R16.11', fi.qualname, label, not bad, detail='; '.join(bad[:2]), where=where(fi))
+
+
 def _copy_inherits_no_stale_cache(ctx, mdl, cname, fi):
     """measure, reassign one control point in place, take the derived copy (reversed()), measure the copy: the answer is the one a copy
     of a freshly built segment gives.  A copy that is handed its parent's length cache must be handed a VALID one."""
@@ -1330,6 +1377,25 @@ def _copy_inherits_no_stale_cache(ctx, mdl, cname, fi):
                 if not (_struct_equal(a1, f1) and _struct_equal(a2, f2)):
                     bad.append('length%r; seg.%s = z; seg.%s().length() answers for the old control points' % (tuple(first), field, fi.name))
                     break
+    # ... nor a length measured loosely passed off as a tight one: measure with a loose error, take the copy, ask the copy tightly
+    def th_tol(it):
+        seg = it.construct('path.' + cname, *P)
+        it.call_method(seg, 'length', error=Rat.const(Fr(1, 2)), min_depth=Rat.const(2))
+        r = it.call_method(seg, fi.name)
+        fresh = it.construct('path.' + cname, *P)
+        rf = it.call_method(fresh, fi.name)
+        kw = {'error': Rat.const(Fr(1, 1000)), 'min_depth': Rat.const(3)}
+        return it.call_method(r, 'length', **kw), it.call_method(rf, 'length', **kw)
+    seglen_tol = lambda it, a_, k_: Rat.sym('SEGLEN') + to_rat(it.call_method(a_[0], 'point', Rat.const(Fr(1, 3)))).real() + \
+        to_rat(a_[5] if len(a_) > 5 else k_.get('error', 0)) * 13 + to_rat(a_[6] if len(a_) > 6 else k_.get('min_depth', 0)) * 17
+    try:
+        for pth in explore(mdl, th_tol, {'globals': {('*', '_quad_available'): False}, 'call_hooks': {'path.segment_length': seglen_tol},
+                                        'ext_hooks': {'builtins.hash': lambda it, a_, k_: 7}}):
+            if pth.raised is None and not _struct_equal(*pth.value):
+                bad.append('length(error=1/2, min_depth=2); %s().length(error=1/1000, min_depth=3) returns the loosely measured length' % fi.name)
+                break
+    except Undecidable as e:
+        und = und or str(e)
     label = 'measure, reassign a control point, %s(), measure the copy == copy of a fresh segment' % fi.name
     if und and not bad:
         ctx.undecided('R16.5', fi.qualname, label, und, where=where(fi))
